@@ -938,6 +938,20 @@ class Interp:
         return out
 
     def e_GeneratorExp(self, e, env, module, cls):
+        # generator expressions are evaluated eagerly - sound only where they are consumed on the spot (argument of any / all / join /
+        # list / sorted / ...).  One that is stored, returned or chained is lazy in Python (late binding of free variables): not modelled.
+        def in_place(node):
+            par = getattr(node, "_parent", None)
+            if par is None or isinstance(par, ast.Call):
+                return True
+            if isinstance(par, (ast.For,)) and par.iter is node:
+                return True
+            if isinstance(par, ast.comprehension) and par.iter is node:      # iterable of an enclosing comprehension
+                outer = getattr(par, "_parent", None)
+                return isinstance(outer, (ast.ListComp, ast.SetComp, ast.DictComp)) or (isinstance(outer, ast.GeneratorExp) and in_place(outer))
+            return False
+        if not in_place(e):
+            self.outside("generator expression that is not consumed where it is created (lazy evaluation is not modelled)", e)
         return self.e_ListComp(e, env, module, cls)
 
     def e_SetComp(self, e, env, module, cls):
